@@ -260,6 +260,20 @@ def r14_3(ctx):
     for idx, (n, key, var) in probes.items():
         h = q.protected_by(fr, n.value, ['KeyError'])
         ctx.ob('R14.3', '_free:no-neighbour-is-not-an-error@%s' % idx, h is not None, fr, n, 'probe inside try/except KeyError')
+        # both neighbours are looked up for every freed block: a "cannot have a neighbour" shortcut must be about the
+        # block's own arena (start == 0 / stop == arena.size), nothing else -- arenas differ in size
+        cn = fr.cfg.node_containing(n.value)
+        g = set()
+        for x in cn:
+            g |= q.guards_norm(fr, x)
+        g = {(t, p) for (t, p) in g}
+        allowed = lambda t: t.replace(' ', '') in ('0<start', 'start<0', 'start==0', '0==start', 'stop<arena.size',
+                                                    'arena.size<stop', 'arena.size==stop', 'stop==arena.size')
+        odd = sorted(t for (t, p) in g if not allowed(t))
+        ctx.ob('R14.3', '_free:neighbour-always-looked-up@%s' % idx, not odd, fr, n,
+               'the probe is unconditional (or skipped only at the edge of the block\'s own arena)' if not odd else
+               'the probe is skipped under `%s`, which is not about the edge of this block\'s arena: adjacent free '
+               'blocks stay unmerged and a request that fits their sum maps a new arena' % odd[0])
 
 
 def r14_4(ctx):
